@@ -29,8 +29,9 @@ def _solve(i, rlimit=None):
         else:
             s.set('rlimit', rlimit or RLIMIT)
         s.set('timeout', TIMEOUT_MS)
-        for h in vc.hyps: s.add(h)
-        s.add(z3.Not(vc.goal))
+        # normalise arithmetic sub-terms (R - k - 1 vs R + -1*k - 1) so that equal index expressions are syntactically equal
+        for h in vc.hyps: s.add(z3.simplify(h, som=True))
+        s.add(z3.simplify(z3.Not(vc.goal), som=True))
         try: r = s.check()
         except z3.Z3Exception as ex:
             return i, 'unknown', time.time() - t0, 'z3 exception: %s' % ex
